@@ -9,7 +9,7 @@ import vlib
 
 def run(c):
     scen = c.path("buf_scen.ndjson")
-    cfgs = c.pick(["MC_BufScen_quick", "MC_BufScen_quick4", "MC_BufScen_sizes", "MC_BufScen_sizes4q"], ["MC_BufScen_quick", "MC_BufScen_thorough", "MC_BufScen_sizes", "MC_BufScen_sizes4"])
+    cfgs = c.pick(["MC_BufScen_quick", "MC_BufScen_quick4", "MC_BufScen_sizes", "MC_BufScen_sizes4q", "MC_BufScen_ext"], ["MC_BufScen_quick", "MC_BufScen_thorough", "MC_BufScen_sizes", "MC_BufScen_sizes4", "MC_BufScen_ext"])
     nscen = 0
     with open(scen, "w") as out:
         for cfg in cfgs:
@@ -21,7 +21,7 @@ def run(c):
     trace = c.path("buf_trace.ndjson")
     stats = json.loads(c.vh(["bufrun", scen, trace]).stdout)
     c.log("executed on the real buffer:", stats)
-    for g in ("fail_check", "fail_process", "fail_none", "with_duplicate", "tight_num"):
+    for g in ("fail_check", "fail_process", "fail_none", "with_duplicate", "tight_num", "with_external_connect"):
         c.guard(g, stats.get(g, 0))
     r1 = vlib.validate_scenarios(c, "gossip", "EventsBufferTrace", trace)
     # concurrent pushers
